@@ -41,6 +41,9 @@ structure CTX (c : Cfg) (X : Type) where
   J : X → Prop
   Inv : St → Prop
   bad : Node → X → Bool
+  /-- quiet skip: SkipNode WITHOUT an error (only `ValuesOfCorrectTypeChecker`, at an object literal whose expected
+      type is unknown); allowed when nothing below could report anyway -/
+  qskip : Node → X → Bool
   F : Node → X → Nat
   G : Node → X → Nat
   restore : ∀ n x, (n.isDirective = true → J x) → up n (down n x) = x
@@ -51,9 +54,17 @@ structure CTX (c : Cfg) (X : Type) where
   leaveI : ∀ n st, n.isDoc = false → Inv st → Inv (leave c n st)
   skipE : ∀ n st, n.isDoc = false → Inv st → bad n (down n (ctx st)) = true →
     (enter c n st).2 = true ∧ E st < E (enter c n st).1
-  noskip : ∀ n st, n.isDoc = false → Inv st → bad n (down n (ctx st)) = false → (enter c n st).2 = false
-  enterE : ∀ n st, n.isDoc = false → Inv st → bad n (down n (ctx st)) = false →
+  noskip : ∀ n st, n.isDoc = false → Inv st → bad n (down n (ctx st)) = false → qskip n (down n (ctx st)) = false →
+    (enter c n st).2 = false
+  enterE : ∀ n st, n.isDoc = false → Inv st → bad n (down n (ctx st)) = false → qskip n (down n (ctx st)) = false →
     E (enter c n st).1 = E st + F n (down n (ctx st))
+  qskipE : ∀ n st, n.isDoc = false → Inv st → qskip n (down n (ctx st)) = true →
+    (enter c n st).2 = true ∧ E (enter c n st).1 = E st
+  qskip_fine : ∀ n x, qskip n x = true → bad n x = false ∧ F n x = 0 ∧ G n x = 0
+  qskip_ctx : ∀ n x, qskip n (down n x) = true → down n x = x
+  qskip_only : ∀ n x, qskip n x = true → ∃ fs, n = .value (.obj fs)
+  qskip_sub : ∀ fs x, qskip (.value (.obj fs)) x = true →
+    ∀ p ∈ gnObjFields down x fs, bad p.1 p.2 = false ∧ F p.1 p.2 = 0 ∧ G p.1 p.2 = 0
   leaveE : ∀ n st, n.isDoc = false → Inv st → E (leave c n st) = E st + G n (ctx st)
 
 variable {c : Cfg} {X : Type}
@@ -65,15 +76,19 @@ def MI (K : CTX c X) (st st' : St) : Prop := K.Inv st → K.Inv st' ∧ E st ≤
 theorem visitNode_MI (K : CTX c X) (n : Node) (body : St → St) (st : St) (hn : n.isDoc = false)
     (hb : ∀ st1, MI K st1 (body st1)) : MI K st (visitNode c n body st) := by
   intro hi
-  cases hbad : K.bad n (K.down n (K.ctx st))
-  · rw [visitNode_false (K.noskip n st hn hi hbad)]
-    have e1 := K.enterE n st hn hi hbad
-    obtain ⟨i2, m2⟩ := hb _ (K.enterI n st hn hi)
-    refine ⟨K.leaveI n _ hn i2, ?_⟩
-    rw [K.leaveE n _ hn i2]; omega
-  · obtain ⟨h1, h2⟩ := K.skipE n st hn hi hbad
+  cases hq : K.qskip n (K.down n (K.ctx st))
+  · cases hbad : K.bad n (K.down n (K.ctx st))
+    · rw [visitNode_false (K.noskip n st hn hi hbad hq)]
+      have e1 := K.enterE n st hn hi hbad hq
+      obtain ⟨i2, m2⟩ := hb _ (K.enterI n st hn hi)
+      refine ⟨K.leaveI n _ hn i2, ?_⟩
+      rw [K.leaveE n _ hn i2]; omega
+    · obtain ⟨h1, h2⟩ := K.skipE n st hn hi hbad
+      rw [visitNode_true h1]
+      exact ⟨K.enterI n st hn hi, Nat.le_of_lt h2⟩
+  · obtain ⟨h1, h2⟩ := K.qskipE n st hn hi hq
     rw [visitNode_true h1]
-    exact ⟨K.enterI n st hn hi, Nat.le_of_lt h2⟩
+    exact ⟨K.enterI n st hn hi, Nat.le_of_eq h2.symm⟩
 
 theorem algM (K : CTX c X) : WalkAlg c (fun _ st st' => MI K st st') where
   nil st := fun hi => ⟨hi, Nat.le_refl _⟩
@@ -122,63 +137,82 @@ theorem PX.seq (K : CTX c X) (la lb : List (Node × X)) (s1 s2 s3 : St) (m12 : E
 
 theorem PX.node (K : CTX c X) (n : Node) (body : St → St) (lb : List (Node × X)) (st : St) (hn : n.isDoc = false)
     (hi : K.Inv st) (hJ : n.isDirective = true → K.J (K.ctx st))
+    (hqs : K.qskip n (K.down n (K.ctx st)) = true → ∀ p ∈ lb, okP K p)
     (mb : ∀ st1, MI K st1 (body st1))
     (hb : ∀ st1, K.Inv st1 → K.ctx st1 = K.down n (K.ctx st) → PX K lb st1 (body st1)) :
     PX K ((n, K.down n (K.ctx st)) :: lb) st (visitNode c n body st) := by
-  cases hbad : K.bad n (K.down n (K.ctx st))
-  · rw [visitNode_false (K.noskip n st hn hi hbad)]
-    have e1 := K.enterE n st hn hi hbad
-    have i1 := K.enterI n st hn hi
-    have c1 := K.enter_ctx n st
-    obtain ⟨i2, m2⟩ := mb _ i1
-    have el := K.leaveE n _ hn i2
-    have hb1 := hb _ i1 c1
-    constructor
-    · simp only [List.mem_cons, forall_eq_or_imp, okP]
+  cases hq : K.qskip n (K.down n (K.ctx st))
+  · cases hbad : K.bad n (K.down n (K.ctx st))
+    · rw [visitNode_false (K.noskip n st hn hi hbad hq)]
+      have e1 := K.enterE n st hn hi hbad hq
+      have i1 := K.enterI n st hn hi
+      have c1 := K.enter_ctx n st
+      obtain ⟨i2, m2⟩ := mb _ i1
+      have el := K.leaveE n _ hn i2
+      have hb1 := hb _ i1 c1
       constructor
+      · simp only [List.mem_cons, forall_eq_or_imp, okP]
+        constructor
+        · intro e
+          have eb : E (body (enter c n st).1) = E (enter c n st).1 := by omega
+          have cb := hb1.2 eb
+          rw [cb, c1] at el
+          exact ⟨⟨hbad, by omega, by omega⟩, hb1.1.mp eb⟩
+        · rintro ⟨⟨_, hf, hg⟩, hrest⟩
+          have eb := hb1.1.mpr hrest
+          have cb := hb1.2 eb
+          rw [cb, c1] at el
+          omega
       · intro e
         have eb : E (body (enter c n st).1) = E (enter c n st).1 := by omega
-        have cb := hb1.2 eb
-        rw [cb, c1] at el
-        exact ⟨⟨hbad, by omega, by omega⟩, hb1.1.mp eb⟩
-      · rintro ⟨⟨_, hf, hg⟩, hrest⟩
-        have eb := hb1.1.mpr hrest
-        have cb := hb1.2 eb
-        rw [cb, c1] at el
-        omega
-    · intro e
-      have eb : E (body (enter c n st).1) = E (enter c n st).1 := by omega
-      rw [K.leave_ctx, hb1.2 eb, c1, K.restore n _ hJ]
-  · obtain ⟨h1, h2⟩ := K.skipE n st hn hi hbad
+        rw [K.leave_ctx, hb1.2 eb, c1, K.restore n _ hJ]
+    · obtain ⟨h1, h2⟩ := K.skipE n st hn hi hbad
+      rw [visitNode_true h1]
+      constructor
+      · constructor
+        · intro e; omega
+        · intro hall
+          have := (hall _ (List.mem_cons_self ..)).1
+          simp only at this
+          rw [hbad] at this
+          cases this
+      · intro e; omega
+  · -- quiet skip: nothing is added, nothing below could have reported, the context is untouched
+    obtain ⟨h1, h2⟩ := K.qskipE n st hn hi hq
     rw [visitNode_true h1]
     constructor
     · constructor
-      · intro e; omega
-      · intro hall
-        have := (hall _ (List.mem_cons_self ..)).1
-        simp only at this
-        rw [hbad] at this
-        cases this
-    · intro e; omega
+      · intro _ p hp
+        rcases List.mem_cons.mp hp with rfl | hp
+        · exact K.qskip_fine _ _ hq
+        · exact hqs hq p hp
+      · intro _; exact h2
+    · intro _
+      rw [K.enter_ctx, K.qskip_ctx n _ hq]
 
+/-- nodes other than object literals never skip quietly -/
+theorem noq (K : CTX c X) {n : Node} {x : X} {lb : List (Node × X)} (hne : ∀ fs, n ≠ .value (.obj fs)) :
+    K.qskip n x = true → ∀ p ∈ lb, okP K p := fun h => by
+  obtain ⟨fs, e⟩ := K.qskip_only n x h
+  exact absurd e (hne fs)
 
 /-! ### the induction over the document -/
 
 theorem leafC (K : CTX c X) (n : Node) (st : St) (hn : n.isDoc = false) (hi : K.Inv st)
     (hJ : n.isDirective = true → K.J (K.ctx st)) :
     PX K [(n, K.down n (K.ctx st))] st (visitNode c n id st) :=
-  PX.node K n id [] st hn hi hJ (fun _ hi => ⟨hi, Nat.le_refl _⟩) (fun st1 _ _ => PX.nil K st1)
+  PX.node K n id [] st hn hi hJ (fun _ p hp => by cases hp) (fun _ hi => ⟨hi, Nat.le_refl _⟩) (fun st1 _ _ => PX.nil K st1)
 
 mutual
 theorem valueC (K : CTX c X) : ∀ (v : Value) (st : St), K.Inv st →
     PX K (gnValue K.down (K.ctx st) v) st (visitValue c v st)
   | .list vs, st, hi => by
     rw [visitValue, gnValue]
-    exact PX.node K _ _ _ st rfl hi (by intro h; cases h) (fun st1 => visitValuesG (algM K) vs st1)
+    exact PX.node K _ _ _ st rfl hi (by intro h; cases h) (noq K (by intro fs e; cases e)) (fun st1 => visitValuesG (algM K) vs st1)
       (fun st1 i1 c1 => by have := valuesC K vs st1 i1; rwa [c1] at this)
   | .obj fs, st, hi => by
     rw [visitValue, gnValue]
-    exact PX.node K _ _ _ st rfl hi (by intro h; cases h) (fun st1 => visitObjFieldsG (algM K) fs st1)
+    exact PX.node K _ _ _ st rfl hi (by intro h; cases h) (fun h => K.qskip_sub fs _ h) (fun st1 => visitObjFieldsG (algM K) fs st1)
       (fun st1 i1 c1 => by have := objFieldsC K fs st1 i1; rwa [c1] at this)
   | .var a, st, hi => by rw [visitValue, gnValue]; exact leafC K _ st rfl hi (by intro h; cases h)
   | .int a, st, hi => by rw [visitValue, gnValue]; exact leafC K _ st rfl hi (by intro h; cases h)
@@ -200,7 +234,7 @@ theorem objFieldC (K : CTX c X) : ∀ (f : ObjField) (st : St), K.Inv st →
     PX K (gnObjField K.down (K.ctx st) f) st (visitObjField c f st)
   | .mk n v, st, hi => by
     rw [visitObjField, gnObjField]
-    exact PX.node K _ _ _ st rfl hi (by intro h; cases h) (fun st1 => visitValueG (algM K) v st1)
+    exact PX.node K _ _ _ st rfl hi (by intro h; cases h) (noq K (by intro fs e; cases e)) (fun st1 => visitValueG (algM K) v st1)
       (fun st1 i1 c1 => by have := valueC K v st1 i1; rwa [c1] at this)
 theorem objFieldsC (K : CTX c X) : ∀ (fs : List ObjField) (st : St), K.Inv st →
     PX K (gnObjFields K.down (K.ctx st) fs) st (visitObjFields c fs st)
@@ -230,7 +264,7 @@ theorem foldlC {α} (K : CTX c X) (P : X → Prop) (visit : α → St → St) (l
 theorem argC (K : CTX c X) (a : Arg) (st : St) (hi : K.Inv st) :
     PX K (gnArg K.down (K.ctx st) a) st (visitArgument c a st) := by
   rw [visitArgument, gnArg]
-  exact PX.node K _ _ _ st rfl hi (by intro h; cases h) (fun st1 => visitValueG (algM K) a.value st1)
+  exact PX.node K _ _ _ st rfl hi (by intro h; cases h) (noq K (by intro fs e; cases e)) (fun st1 => visitValueG (algM K) a.value st1)
     (fun st1 i1 c1 => by have := valueC K a.value st1 i1; rwa [c1] at this)
 
 theorem argsC (K : CTX c X) (as : List Arg) (st : St) (hi : K.Inv st) :
@@ -241,7 +275,7 @@ theorem argsC (K : CTX c X) (as : List Arg) (st : St) (hi : K.Inv st) :
 theorem dirC (K : CTX c X) (d : Dir) (st : St) (hi : K.Inv st) (hj : K.J (K.ctx st)) :
     PX K (gnDir K.down (K.ctx st) d) st (visitDirective c d st) := by
   rw [visitDirective, gnDir]
-  exact PX.node K _ _ _ st rfl hi (fun _ => hj) (fun st1 => visitArgumentsG (algM K).toV d.args st1)
+  exact PX.node K _ _ _ st rfl hi (fun _ => hj) (noq K (by intro fs e; cases e)) (fun st1 => visitArgumentsG (algM K).toV d.args st1)
     (fun st1 i1 c1 => by have := argsC K d.args st1 i1; rwa [c1] at this)
 
 theorem dirsC (K : CTX c X) (ds : List Dir) (st : St) (hi : K.Inv st) (hj : K.J (K.ctx st)) :
@@ -255,7 +289,7 @@ theorem ssPartC (K : CTX c X) (ssid : Nat) (sub : List Sel) (st : St) (hi : K.In
     PX K ((.selectionSet ssid sub, K.down (.selectionSet ssid sub) (K.ctx st)) ::
         gnSels K.down (K.down (.selectionSet ssid sub) (K.ctx st)) sub) st
       (visitNode c (.selectionSet ssid sub) (visitSels c sub) st) :=
-  PX.node K _ _ _ st rfl hi (by intro h; cases h) (fun st1 => visitSelsG (algM K).toV sub st1)
+  PX.node K _ _ _ st rfl hi (by intro h; cases h) (noq K (by intro fs e; cases e)) (fun st1 => visitSelsG (algM K).toV sub st1)
     (fun st2 i2 c2 => by
       have := hsub st2 i2 (by rw [c2]; exact K.keepJ _ _ rfl hj)
       rwa [c2] at this)
@@ -271,7 +305,7 @@ theorem selC (K : CTX c X) : ∀ (x : Sel) (st : St), K.Inv st → K.J (K.ctx st
   | .field al name args dirs true ssid sub, st, hi, hj => by
     rw [visitSel, gnSel]
     simp only [↓reduceIte]
-    refine PX.node K _ _ _ st rfl hi (by intro h; cases h)
+    refine PX.node K _ _ _ st rfl hi (by intro h; cases h) (noq K (by intro fs e; cases e))
       (fun st1 => MI.trans (MI.trans (visitArgumentsG (algM K).toV args st1) (visitDirectivesG (algM K).toV dirs _))
         (visitNode_MI K _ _ _ rfl (fun st => visitSelsG (algM K).toV sub st)))
       (fun st1 i1 c1 => ?_)
@@ -294,7 +328,7 @@ theorem selC (K : CTX c X) : ∀ (x : Sel) (st : St), K.Inv st → K.J (K.ctx st
   | .field al name args dirs false ssid sub, st, hi, hj => by
     rw [visitSel, gnSel]
     simp only [Bool.false_eq_true, ↓reduceIte, List.append_nil]
-    refine PX.node K _ _ _ st rfl hi (by intro h; cases h)
+    refine PX.node K _ _ _ st rfl hi (by intro h; cases h) (noq K (by intro fs e; cases e))
       (fun st1 => MI.trans (visitArgumentsG (algM K).toV args st1) (visitDirectivesG (algM K).toV dirs _))
       (fun st1 i1 c1 => ?_)
     have hj1 : K.J (K.down (.field name args dirs false) (K.ctx st)) := K.keepJ _ _ rfl hj
@@ -308,13 +342,13 @@ theorem selC (K : CTX c X) : ∀ (x : Sel) (st : St), K.Inv st → K.J (K.ctx st
         rwa [e, c1] at this)
   | .spread name dirs, st, hi, hj => by
     rw [visitSel, gnSel]
-    exact PX.node K _ _ _ st rfl hi (by intro h; cases h) (fun st1 => visitDirectivesG (algM K).toV dirs st1)
+    exact PX.node K _ _ _ st rfl hi (by intro h; cases h) (noq K (by intro fs e; cases e)) (fun st1 => visitDirectivesG (algM K).toV dirs st1)
       (fun st1 i1 c1 => by
         have := dirsC K dirs st1 i1 (by rw [c1]; exact K.keepJ _ _ rfl hj)
         rwa [c1] at this)
   | .inline on dirs ssid sub, st, hi, hj => by
     rw [visitSel, gnSel]
-    refine PX.node K _ _ _ st rfl hi (by intro h; cases h)
+    refine PX.node K _ _ _ st rfl hi (by intro h; cases h) (noq K (by intro fs e; cases e))
       (fun st1 => MI.trans (visitDirectivesG (algM K).toV dirs st1)
         (visitNode_MI K _ _ _ rfl (fun st => visitSelsG (algM K).toV sub st)))
       (fun st1 i1 c1 => ?_)
@@ -344,7 +378,7 @@ end
 theorem varDefC (K : CTX c X) (v : VarDef) (st : St) (hi : K.Inv st) :
     PX K (gnVarDef K.down (K.ctx st) v) st (visitVarDef c v st) := by
   rw [visitVarDef, gnVarDef]
-  refine PX.node K _ _ _ st rfl hi (by intro h; cases h) (fun st1 => ?_) (fun st1 i1 c1 => ?_)
+  refine PX.node K _ _ _ st rfl hi (by intro h; cases h) (noq K (by intro fs e; cases e)) (fun st1 => ?_) (fun st1 i1 c1 => ?_)
   · cases hd : v.default with
     | none => exact visitNode_MI K _ _ _ rfl (fun _ hi => ⟨hi, Nat.le_refl _⟩)
     | some dv =>
@@ -373,7 +407,7 @@ theorem defC (K : CTX c X) (d : Def) (st : St) (hi : K.Inv st) (hj : K.J (K.ctx 
   cases d with
   | op kind name vars dirs ssid sels =>
     rw [visitDef, gnDef]
-    refine PX.node K _ _ _ st rfl hi (by intro h; cases h)
+    refine PX.node K _ _ _ st rfl hi (by intro h; cases h) (noq K (by intro fs e; cases e))
       (fun st1 => MI.trans (MI.trans (foldlG (algM K).toV (visitVarDef c) (fun _ => []) (visitVarDef_MI K) vars st1)
         (visitDirectivesG (algM K).toV dirs _)) (visitNode_MI K _ _ _ rfl (fun st => visitSelsG (algM K).toV sels st)))
       (fun st1 i1 c1 => ?_)
@@ -397,7 +431,7 @@ theorem defC (K : CTX c X) (d : Def) (st : St) (hi : K.Inv st) (hj : K.J (K.ctx 
         rwa [e, c1] at this)
   | frag name on dirs ssid sels =>
     rw [visitDef, gnDef]
-    refine PX.node K _ _ _ st rfl hi (by intro h; cases h)
+    refine PX.node K _ _ _ st rfl hi (by intro h; cases h) (noq K (by intro fs e; cases e))
       (fun st1 => MI.trans (visitDirectivesG (algM K).toV dirs st1)
         (visitNode_MI K _ _ _ rfl (fun st => visitSelsG (algM K).toV sels st)))
       (fun st1 i1 c1 => ?_)
